@@ -73,6 +73,7 @@ type Val struct {
 	L   []*Term
 	Ptr *PtrInfo     // for pointer-typed values with a known symbolic address
 	Clo *ClosureInfo // for function values with a statically known target
+	Str *string      // string literal (for spec built-ins taking names)
 	// For struct values containing pointers with known address info, the info is lost
 	// (only the ref leaf survives), which is sound: PObj pointers are recovered from the leaf.
 }
